@@ -149,7 +149,7 @@ package filter
   ensures result
 @*/
 /*@ func (filter.nullFilter).Equals
-  props C17
+  props C17 C07 C06
   theory filtereq
   implements filter.ComparableFilter.Equals
 @*/
@@ -166,7 +166,7 @@ package filter
   ensures (not result)
 @*/
 /*@ func (filter.allFilter).Equals
-  props C17
+  props C17 C07 C06
   theory filtereq
   implements filter.ComparableFilter.Equals
 @*/
@@ -186,7 +186,7 @@ package filter
   ensures (= result (not (accept {f.child} {obj})))
 @*/
 /*@ func (*filter.notFilter).Equals
-  props C17
+  props C17 C07 C06
   theory filtereq
   implements filter.ComparableFilter.Equals
   requires [recv] (not (= {f} vnil))
@@ -229,7 +229,7 @@ package filter
   ensures (= result (forall ((j Int)) (=> (and (<= 0 j) (< j (slen {f}))) (accept (select (sarr {f}) j) {obj}))))
 @*/
 /*@ func (filter.andFilter).Equals
-  props C17
+  props C17 C07 C06
   theory filtereq
   implements filter.ComparableFilter.Equals
 @*/
@@ -250,12 +250,12 @@ package filter
   ensures (= result (exists ((j Int)) (and (<= 0 j) (< j (slen {f})) (accept (select (sarr {f}) j) {obj}))))
 @*/
 /*@ func (filter.orFilter).Equals
-  props C17
+  props C17 C07 C06
   theory filtereq
   implements filter.ComparableFilter.Equals
 @*/
 /*@ func filter.compareFilterList
-  props C17
+  props C17 C07 C06
   theory filtereq
   loop 1 inv [range] (and (<= 0 (+ {rangeindex} 1)) (<= (+ {rangeindex} 1) (slen {a})) (= (slen {a}) (slen {b})))
   loop 1 inv [prefix-same] (forall ((j Int)) (=> (and (<= 0 j) (< j (+ {rangeindex} 1)))
@@ -300,7 +300,7 @@ package filter
   ensures (= result (nsAccept {f} {obj}))
 @*/
 /*@ func (filter.nsNameFilter).Equals
-  props C17
+  props C17 C07 C06
   theory filtereq
   implements filter.ComparableFilter.Equals
 @*/
@@ -334,7 +334,7 @@ package filter
   ensures (= result (sel-matches {f.selector} (obj-labels {obj})))
 @*/
 /*@ func (*filter.selectorFilter).Equals
-  props C17
+  props C17 C07 C06
   theory filtereq labelsem
   implements filter.ComparableFilter.Equals
   requires [recv] (not (= {f} vnil))
